@@ -127,13 +127,16 @@ Theorem C08_authed_only_on_235 :
 Proof. split; [exact session_authed|exact eauth_only_on_235]. Qed.
 Print Assumptions C08_authed_only_on_235.
 
-(* The base64 the code uses decodes what it encodes; an exchange in which the client sends the
+(* The base64 the code uses decodes what it encodes, and what it encodes is ONE line of any length
+   (no CR, LF or blank; 4 characters per 3 bytes): a SASL response never spills into a second
+   line; an exchange in which the client sends the
    SASL responses rs (base64, the first one possibly with the AUTH command) ends exactly like the
    mechanism run on rs themselves, paired with the challenges it issued: the credentials given to
    the handler are the mechanism's result on the client's bytes; for PLAIN these are the three
    UTF-8 fields of the client's message, whatever code points they encode. *)
 Theorem C08_credentials_exact :
   (forall s, Forall byte_ok s -> b64_dec (b64_enc s) = Some s) /\
+  (forall s, Forall line_safe (b64_enc s) /\ length (b64_enc s) = Nat.mul 4 (Nat.div (Nat.add (length s) 2) 3)) /\
   (forall nv st m rs resps, Forall (Forall byte_ok) rs ->
      feed nv st (auth_turn nv st m resps) (map b64_enc rs) = spec_result nv st m (mech_run m resps rs)) /\
   (forall nv st m d r0 rs, m_attempt m [] = MChal d -> Forall byte_ok r0 -> Forall (Forall byte_ok) rs ->
@@ -147,7 +150,8 @@ Theorem C08_credentials_exact :
      MCreds {| cr_kind := 0; cr_cid := cid; cr_secret := sec;
                cr_zid := match zid with [] => cid | _ => zid end |}).
 Proof.
-  split; [exact b64_roundtrip|]. split; [exact feed_exact|]. split; [exact feed_exact_initial|].
+  split; [exact b64_roundtrip|]. split; [intro s; split; [apply b64_enc_one_line|apply b64_enc_length]|].
+  split; [exact feed_exact|]. split; [exact feed_exact_initial|].
   split; [exact finish_event|exact plain_exact].
 Qed.
 Print Assumptions C08_credentials_exact.
